@@ -1,5 +1,5 @@
 import Proofs.C13
-import Proofs.Gen
+import Proofs.GenPurity
 #print axioms Xsel.C13.frame
 #print axioms Xsel.C13.frame_valid
 #print axioms Xsel.C13.inputs_unchanged
